@@ -199,17 +199,42 @@ func rulePairSeq(p *Prog, r *Report) {
 			skipSets = append(skipSets, uniq(atoms))
 		}
 	}
-	want := "(KEY == load(mxj.attrK)),(KEY == load(mxj.seqK))"
-	found := false
+	// the collection loop skips the attribute and sequence keys; it may also skip the text key, provided the text is written separately
+	base := "(KEY == load(mxj.attrK)),(KEY == load(mxj.seqK))"
+	withText := "(KEY == load(mxj.attrK)),(KEY == load(mxj.seqK)),(KEY == load(mxj.textK))"
+	found, text := false, false
 	for _, s := range skipSets {
-		if strings.Join(s, ",") == want {
+		j := strings.Join(s, ",")
+		if j == base {
 			found = true
+		}
+		if j == withText {
+			found, text = true, true
+		}
+	}
+	if text {
+		// sinks fed from val[textK]: the simple-element branch and the mixed-content branch
+		nText := 0
+		eachInstr(enc, func(b *ssa.BasicBlock, in ssa.Instruction) {
+			ci, ok := in.(ssa.CallInstruction)
+			if !ok || !isCallTo(ci.Common(), "(*strings.Builder).WriteString", "(*bytes.Buffer).WriteString") {
+				return
+			}
+			for v := range backwardSlice(enc, ci.Common().Args[1]) {
+				if strings.HasSuffix(cze.of(v), ",load(mxj.textK))") && strings.HasPrefix(cze.of(v), "lookup(") {
+					nText++
+					return
+				}
+			}
+		})
+		if nText < 2 {
+			found = false
 		}
 	}
 	if found {
-		r.OK(rule, p.Name(enc), "child collection skips exactly the attribute and sequence keys", p.Pos(enc.Pos()), want)
+		r.OK(rule, p.Name(enc), "child collection skips exactly the attribute, sequence (and separately written text) keys", p.Pos(enc.Pos()), fmt.Sprintf("%v", skipSets))
 	} else {
-		r.Bad(rule, p.Name(enc), "child collection skips exactly the attribute and sequence keys", p.Pos(enc.Pos()), fmt.Sprintf("key tests found in the collection loops: %v", skipSets))
+		r.Bad(rule, p.Name(enc), "child collection skips exactly the attribute, sequence (and separately written text) keys", p.Pos(enc.Pos()), fmt.Sprintf("key tests found in the collection loops: %v", skipSets))
 	}
 }
 
